@@ -73,6 +73,18 @@ def frame_roundtrip(fin: int, r1: int, r2: int, r3: int, opcode: int, d0: int, d
         r1, r2, r3 = CFG.get('r1', 0), 0, 0
     payload = (B(d0, d1) + bytes(max(plen - 2, 0)))[:plen]
     T = B(t0, t1)[:ntrail]
+    # an earlier frame of the same process with the same opcode, mask flag and length but the complementary flag bits: what was
+    # built before must not influence this frame (encoders keep no state between frames)
+    p = WebsocketFrame()
+    p.fin, p.rsv1, p.rsv2, p.rsv3 = not bool(fin), not bool(r1), bool(r2), bool(r3)
+    p.opcode = opcode
+    p.masked = masked
+    p.mask = mask
+    p.data = bytes(plen)
+    try:
+        p.build()
+    except Exception as e:
+        return fail('build() of an earlier frame raised', exc=repr(e))
     f = WebsocketFrame()
     f.fin, f.rsv1, f.rsv2, f.rsv3 = bool(fin), bool(r1), bool(r2), bool(r3)
     f.opcode = opcode
